@@ -299,6 +299,15 @@ func c13Run(c *Ctx) {
 			continue
 		}
 		v := GenValueText(r, resolved)
+		if t.K == KString && !t.IsFunc() && len(resolved.Choices) == 0 && r.Chance(1, 12) {
+			// a value longer than the INI reader's 4096-byte chunks
+			long := strings.Repeat("w", r.Range(4085, 4200)) + fmt.Sprintf("-end%d", r.Intn(1000))
+			if t.W == WMap {
+				v = "k1:" + long
+			} else {
+				v = long
+			}
+		}
 		if quoted {
 			lit := strconv.Quote(v)
 			if t.W == WMap {
